@@ -148,9 +148,25 @@ pub struct Tmpl {
 }
 
 /// Authorised setup: genesis, a tool, some tokens, committed.
+/// Set when the authorised set-up itself (correct credentials, also sent to servers that do not ask for
+/// any) was answered with 401: that is the property failing, not a reason to skip the sweep.
+static SETUP_REFUSED: std::sync::atomic::AtomicBool = std::sync::atomic::AtomicBool::new(false);
+
+fn setup_failed(rep: &mut WorkerReport, seed: u64, auth: bool) {
+    if SETUP_REFUSED.swap(false, std::sync::atomic::Ordering::SeqCst) {
+        violation(rep, "C12", seed, &format!("authorised-call-refused:auth={}", auth), format!("auth={}: brc20_initialise sent with the configured credentials was answered with 401", auth), json!({}));
+    } else {
+        rep.inconclusive("authorised setup failed");
+    }
+}
+
 fn setup(addr: &str, dir: &Path) -> Option<Tmpl> {
     let mut i = Inst::over_http(dir, addr, vec![http::basic(USER, PASS)]);
-    i.call("brc20_initialise", json!({"genesis_hash": hist::ZERO_HASH, "genesis_timestamp": 1, "genesis_height": 0}));
+    let r0 = i.call("brc20_initialise", json!({"genesis_hash": hist::ZERO_HASH, "genesis_timestamp": 1, "genesis_height": 0}));
+    if let Resp::Err { code: 401, .. } = &r0 {
+        SETUP_REFUSED.store(true, std::sync::atomic::Ordering::SeqCst);
+        return None;
+    }
     let bh = crate::hist::bh((0xc12u64) as u64);
     let r = i.call("brc20_deploy", json!({"from_pkscript": PK, "data": hist::hx(&asm::tool_init()), "timestamp": 2, "hash": bh, "tx_idx": 0, "inscription_id": "c12-setup-tool", "inscription_byte_len": 100000, "op_return_tx_id": hist::ZERO_HASH}));
     let tool = hist::created_address(&r)?;
@@ -207,7 +223,7 @@ fn sweep(ctx: &WorkerCtx, rep: &mut WorkerReport, auth: bool, methods: &[String]
         }
     };
     let Some(mut st) = setup(&srv.addr, &dir) else {
-        rep.inconclusive("authorised setup failed");
+        setup_failed(rep, ctx.seed, auth);
         stop(srv);
         return refused_methods;
     };
@@ -407,6 +423,7 @@ fn classify(ctx: &WorkerCtx, rep: &mut WorkerReport, methods: &[String], deny: &
         }
     };
     let Some(mut st) = setup(&srv.addr, &dir) else {
+        setup_failed(rep, ctx.seed, true);
         stop(srv);
         return;
     };
@@ -519,6 +536,7 @@ fn twin_after_sweep(ctx: &WorkerCtx, rep: &mut WorkerReport, methods: &[String],
             return;
         };
         let Some(mut st) = setup(&srv.addr, &dir) else {
+            setup_failed(rep, ctx.seed, true);
             stop(srv);
             return;
         };
